@@ -4,6 +4,7 @@
    program with one step per member spawn: every schedule that respects the quiescent-restart guard
    `adm`, member deaths and stop calls during the spawn loop included). *)
 From Ergo Require Import Common.Base App.Seq App.Cases App.SeqProofs App.SeqHist App.Model App.Proofs.
+From Ergo Require Import App.Hold App.HoldProofs.
 
 (* ---- operation level (sequential model, every state) ------------------------------------ *)
 (* members in spec order, then the Start callback, exactly once per successful start *)
@@ -253,3 +254,63 @@ Theorem C17_unknown_app_rejected f specs nd vis a :
   a_st (get nd a) = 0 -> start_rec (S f) specs nd vis a = (nd, 4, []).
 Proof. exact (seq_start_unknown f specs nd vis a). Qed.
 Print Assumptions C17_unknown_app_rejected.
+
+(* ---- a dependency that is STOPPING (sequential model with held members, App/Hold.v) ------ *)
+(* Histories of load / unload / start / hold / release / stop-with-timeout / member death in which a member
+   can be held inside a handler, so that an application is observably in state stopping.  The dependency
+   walk, every call, every variant: an application record is untouched or the application was loaded,
+   is not on the visiting chain and has been started; a stopping application stays as it is. *)
+Theorem C17_dep_walk_touches_loaded_only specs lax fuel nd vis a nd' r e :
+  hstart_rec fuel lax specs nd vis a = (nd', r, e) -> walk_ok specs vis nd nd' e.
+Proof. exact (hstart_rec_walk specs lax fuel nd vis a nd' r e). Qed.
+Print Assumptions C17_dep_walk_touches_loaded_only.
+
+(* nil / ErrApplicationRunning from the walk means: running AT THAT MOMENT *)
+Theorem C17_dep_ok_means_running specs fuel nd vis a nd' r e :
+  hstart_rec fuel false specs nd vis a = (nd', r, e) -> r = 0 \/ r = 1 -> hst nd' a = 2.
+Proof. exact (hstart_ret01_running specs fuel nd vis a nd' r e). Qed.
+Print Assumptions C17_dep_ok_means_running.
+
+(* after a successful start every dependency is running at the return (not stopping, not loaded), the
+   application went loaded -> running with all members, everything of the dependencies came first *)
+Theorem C17_start_deps_running_at_return specs fuel nd vis a nd' e :
+  hstart_rec fuel false specs nd vis a = (nd', 0, e) ->
+  (forall d, In d (sp_deps (spec_of specs a)) -> hst nd' d = 2) /\
+  hst nd a = 1 /\ hget nd' a = started specs a /\
+  exists pre, e = pre ++ start_block' a (sp_n (spec_of specs a)) (sp_mode (spec_of specs a)) /\
+              forall x, In x pre -> hev_app x <> a.
+Proof. exact (hstart_success specs fuel nd vis a nd' e). Qed.
+Print Assumptions C17_start_deps_running_at_return.
+
+(* a start that meets a stopping dependency: ErrApplicationDepends, the application is left as it was,
+   none of its callbacks runs, the dependency is left alone *)
+Theorem C17_start_stopping_dep_refused specs f nd vis a d nd' r e :
+  h_st (hget nd a) <> 0 -> ~ In a vis ->
+  In d (sp_deps (spec_of specs a)) -> hst nd d = 3 ->
+  hstart_rec (S f) false specs nd vis a = (nd', r, e) ->
+  r = 5 /\ hget nd' a = hget nd a /\ (forall x, In x e -> hev_app x <> a) /\ hget nd' d = hget nd d.
+Proof. exact (hstart_stopping_dep_refused specs f nd vis a d nd' r e). Qed.
+Print Assumptions C17_start_stopping_dep_refused.
+
+(* over all histories from any well-formed node: well-formedness (loaded / unloaded: no member; stopping:
+   somebody alive and every live member inside a handler) is kept, the observation is the node ... *)
+Theorem C17_hist_hold_wf lax specs ops nd : hwf nd -> Forall hstep_sound (htrace lax specs nd ops).
+Proof. exact (hist_hold_wf lax specs ops nd). Qed.
+Print Assumptions C17_hist_hold_wf.
+
+(* ... and every ApplicationStart of the history: success => all dependencies running at its return;
+   loaded application with a stopping dependency => 5, still loaded, no member, no callback *)
+Theorem C17_hist_start_vs_stopping_dep specs ops nd :
+  hwf nd -> Forall (hstart_ok specs) (htrace false specs nd ops).
+Proof. exact (hist_hold_start specs ops nd). Qed.
+Print Assumptions C17_hist_start_vs_stopping_dep.
+
+(* the variant `state >= Running` of application.start (a stopping application answers
+   ErrApplicationRunning) is refuted: a start reports success on top of a stopping dependency *)
+Theorem C17_stopping_as_running_refuted : exists specs ops, start_over_stopping_b true specs ops = true.
+Proof. exact hold_lax_refuted. Qed.
+Print Assumptions C17_stopping_as_running_refuted.
+
+Theorem C17_stopping_never_taken_for_running specs ops : start_over_stopping_b false specs ops = false.
+Proof. exact (hold_strict_never specs ops). Qed.
+Print Assumptions C17_stopping_never_taken_for_running.
